@@ -213,7 +213,16 @@ fn plant() -> BoxedStrategy<Plant> {
                 2 => (0u16..3000).prop_map(SizeChange::Garbage),
             ]
         )
-            .prop_map(|(tpe, sel, change)| Plant::WrongSize { tpe, sel, change }),
+            .prop_map(|(tpe, sel, change)| {
+                // A wrong-size cache entry of a tree pack whose BYTES are foreign as well is content
+                // corruption, which the statement does not cover (like same-size different-content
+                // entries): for packs only truncated / extended copies of the real file are planted.
+                let change = match (tpe, change) {
+                    (PType::Pack, SizeChange::Garbage(n)) => SizeChange::Extend(n.clamp(1, 399)),
+                    (_, c) => c,
+                };
+                Plant::WrongSize { tpe, sel, change }
+            }),
         3 => (ptype(), foreign).prop_map(|(tpe, kind)| Plant::Foreign { tpe, kind }),
     ]
     .boxed()
